@@ -577,3 +577,16 @@ def run(ctx, rep):
     defaults(S, g, rep)
     parser_errors(ctx.F, rep)
     currency_case(ctx.F, rep)
+    # "a missing final newline" also at the seam between two input files: the CLI joins them with a line break (shared with
+    # C06-R4); glued together, the last line of one file and the first of the next become one line — rejected, or swallowed
+    # by a trailing comment (seeded change C13-s4)
+    import rules.c06 as c06
+    from core import Report
+    from roles import Roles
+    r2 = Report("tmp")
+    c06.cli_join(Roles(ctx.F), r2)
+    for o in r2.obligations:
+        rep.ob("R4", "files:" + o["instance"], o["ok"], o["detail"], o["site"], key="R4:files:" + o["instance"])
+    for v in r2.violations:
+        if not any(o["instance"] == v["instance"] for o in r2.obligations):
+            rep.ob("R4", "files:" + v["instance"], False, v["detail"], v["site"], key="R4:files:" + v["instance"])
